@@ -172,26 +172,7 @@ func runC07(c *Ctx) {
 	R.Check(len(stores) == 0, "C07.R1", "no-server-stores-from-connection-scope", "-", "connection code never writes to the shared Server", sprintf("%d functions in connection scope, no store to a Server field", len(c.connectionScope())), "see the reported stores")
 
 	// ---------- R2: immutability of Statement / Portal
-	nStores := 0
-	for _, fn := range c.P.ScopeFuncs() {
-		for _, b := range fn.Blocks {
-			for _, in := range b.Instrs {
-				st, ok := in.(*ssa.Store)
-				if !ok {
-					continue
-				}
-				fr, ok := core.FieldOfAddr(st.Addr)
-				if !ok || !(fr.Is(pkWire, "Statement", fr.Name) || fr.Is(pkWire, "Portal", fr.Name)) {
-					continue
-				}
-				nStores++
-				a, fresh := fr.Base.(*ssa.Alloc)
-				fresh = fresh && a.Parent() == fn
-				R.Check(fresh, "C07.R2", fkey(fn)+":construct-only:"+fr.Struct.Obj().Name()+"."+fr.Name, c.at(st), "a published statement / portal is never modified (a portal keeps the definition it was bound to)", "store into an object allocated in the same function", "store to "+fr.Struct.Obj().Name()+"."+fr.Name+" of an existing object: portals bound earlier observe the change")
-			}
-		}
-	}
-	R.Floor("C07.R2", "field stores constructing Statement / Portal", nStores, 6)
+	c.constructOnly("C07.R2", "a published statement / portal is never modified (a portal keeps the definition it was bound to)", "portals bound earlier observe the change")
 
 	// ---------- R3: map discipline of the default caches
 	type cacheFn struct{ typ, method, mapField string }
@@ -710,4 +691,29 @@ func (c *Ctx) c07CloseKinds() {
 			R.Check(!wrong, "C07.R6", fkey(fn)+":close-kind:"+callDescr(ci), c.at(ci), "Close of a "+what[other]+" does not touch the "+what[k]+" that happens to have the same name (separate name spaces)", "the "+what[k]+"-cache operation keyed by the message's name is not on the '"+other+"' edge", callDescr(ci)+" applies the Close message's name to the "+what[k]+" cache on the '"+other+"' (close "+what[other]+") edge: an unrelated "+what[k]+" of the same name is removed")
 		}
 	}
+}
+
+// constructOnly: fields of Statement / Portal are stored only into an object allocated in the same function.
+func (c *Ctx) constructOnly(rule, desc, consequence string) {
+	R := c.R
+	nStores := 0
+	for _, fn := range c.P.ScopeFuncs() {
+		for _, b := range fn.Blocks {
+			for _, in := range b.Instrs {
+				st, ok := in.(*ssa.Store)
+				if !ok {
+					continue
+				}
+				fr, ok := core.FieldOfAddr(st.Addr)
+				if !ok || !(fr.Is(pkWire, "Statement", fr.Name) || fr.Is(pkWire, "Portal", fr.Name)) {
+					continue
+				}
+				nStores++
+				a, fresh := fr.Base.(*ssa.Alloc)
+				fresh = fresh && a.Parent() == fn
+				R.Check(fresh, rule, fkey(fn)+":construct-only:"+fr.Struct.Obj().Name()+"."+fr.Name, c.at(st), desc, "store into an object allocated in the same function", "store to "+fr.Struct.Obj().Name()+"."+fr.Name+" of an existing object: "+consequence)
+			}
+		}
+	}
+	R.Floor(rule, "field stores constructing Statement / Portal", nStores, 6)
 }
